@@ -51,6 +51,8 @@ func genC19(c *Ctx) {
 	c19Codecs(c)
 	c19CodecKeys(c)
 	c19ScaleProbes(c)
+	c19LargeProbes(c)
+	c19CkksDerived(c)
 	c19Aliases(c)
 	c19BgvRejects(c)
 	c19LogNRange(c)
